@@ -225,6 +225,7 @@ def eval_adverb_over(f, a, op, backend):
     """
     if is_atom(a):
         return a
+    a = backend.str_to_chr_arr(a) if isinstance(a, str) else a  # the members of a string are characters
     if len(a) == 1:
         return a[0]
     # Use backend's ufunc reduce when available for better performance
@@ -277,6 +278,7 @@ def eval_adverb_over_neutral(f, a, b):
         return a
     if is_atom(b):
         return f(a,b)
+    b = [KGChar(c) for c in b] if isinstance(b, str) else b  # the members of a string are characters
     return functools.reduce(f,b[1:],f(a,b[0]))
 
 
@@ -307,6 +309,7 @@ def eval_adverb_scan_over_neutral(f, a, b, backend):
         return a
     if is_atom(b):
         b = [b]
+    b = backend.str_to_chr_arr(b) if isinstance(b, str) else b  # the members of a string are characters
     b = [f(a,b[0]), *b[1:]]
     r = list(itertools.accumulate(b,f))
     q = backend.kg_asarray(r)
@@ -320,6 +323,7 @@ def eval_adverb_scan_over(f, a, op, backend):
     """
     if is_atom(a):
         return a
+    a = backend.str_to_chr_arr(a) if isinstance(a, str) else a  # the members of a string are characters
     # Use backend's ufunc accumulate when available for better performance
     np_backend = backend.np
     if isinstance(op, KGOp):
